@@ -1,6 +1,6 @@
 (* C02 — catalog creation stores every input record exactly once, unchanged.
    Statements only; proofs are in Proofs/ChunksP.v and Proofs/WriterP.v. *)
-From Verif Require Import Prelude Chunks ChunksP Writer WriterP PatchPath PatchPathP Relocate RelocateP.
+From Verif Require Import Prelude Chunks ChunksP Writer WriterP PatchPath PatchPathP Relocate RelocateP ChunksBatch ChunksBatchP.
 From Coq Require Import Permutation.
 Open Scope nat_scope.
 
@@ -161,6 +161,17 @@ Theorem C02_reopen_by_stored_paths_refuted :
   exists (f : @fs nat) p q r r', p <> q /\ reopen_stored (create (move (create f p r) p q) p r') q = Some r' /\ r <> r'.
 Proof. exact reopen_stored_after_move_refuted. Qed.
 Print Assumptions C02_reopen_by_stored_paths_refuted.
+(* ---------------- row groups of unequal sizes ---------------- *)
+(* C02_parquet_chunks above holds for ANY list of row groups.  A loader that fetches ceil(missing / rows of the next group)
+   groups in one request (assuming the following groups are as large) delivers every row only while the groups have one size;
+   with groups of 3 rows and 1 row in turn and chunks of 5 rows it ends the pass before the file does *)
+Theorem C02_parquet_batch_loader_refuted :
+  exists (cs : nat) (groups : list (list nat)),
+    concat (parquet_chunks cs groups) = concat groups /\
+    concat (parquet_chunks_batch cs groups) <> concat groups /\
+    length (concat (parquet_chunks_batch cs groups)) < length (concat groups).
+Proof. exact batch_loses_rows_refuted. Qed.
+Print Assumptions C02_parquet_batch_loader_refuted.
 Module C02_paths_example.
 Import Coq.Strings.String.
 Example C02_concrete_paths :
